@@ -153,7 +153,7 @@ def g_case(rng):
                     sources.append({"bare": rng.choice(leaves)})
                     continue
                 taken.update(kids)
-                sources.append({"coll": kids})
+                sources.append({"coll": kids, "nest": rng.choice([0, 0, 1, 2])})
             else:
                 sources.append({"bad": rng.choice(["sensor", "int", "emptycoll"])})
     # observers
@@ -176,7 +176,7 @@ def g_case(rng):
                     ent.append({"sens": rng.choice(sens)})
                     continue
                 taken.update(kids)
-                ent.append({"coll": kids})
+                ent.append({"coll": kids, "nest": rng.choice([0, 0, 1, 2])})
             elif y < 0.98:
                 ent.append({"vec": shape0 if (shape0 is not None and len(shape0) <= 2 and rng.random() < 0.7)
                             else rng.choice([[3], [2, 3]])})
@@ -185,7 +185,8 @@ def g_case(rng):
         if not any("sens" in e or "coll" in e for e in ent):
             ent.insert(0, {"sens": rng.choice(sens)})
         observers = {"kind": "list", "entries": ent}
-    agg = rng.choices([None, "mean", "max", "bogus", "reshape", "argmax"], [55, 15, 8, 6, 4, 12])[0]
+    agg = rng.choices([None, "mean", "max", "std", "ptp", "var", "bogus", "reshape", "argmax"],
+                      [55, 8, 5, 4, 3, 3, 6, 4, 12])[0]
     output = rng.choices(["ndarray", "dataframe", "bogus"], [80, 10, 10])[0]
     tab = ["ok"] * 6
     if rng.random() < 0.45:
@@ -255,6 +256,19 @@ def vec_of(shape):
     return ((np.arange(n).reshape(shape) % 7) - 3 + 0.0).tolist()
 
 
+def _nested(kids, depth):
+    """Collection of kids wrapped `depth` times; the first half of the kids one level deeper (same DFS order)"""
+    if depth and len(kids) > 1:
+        h = len(kids) // 2
+        col = magpy.Collection(magpy.Collection(*kids[:h]), *kids[h:])
+        depth -= 1
+    else:
+        col = magpy.Collection(*kids)
+    for _ in range(depth):
+        col = magpy.Collection(col)
+    return col
+
+
 def build_call(case):
     objs = [build_obj(o) for o in case["objs"]]
     srcs = []
@@ -262,7 +276,7 @@ def build_call(case):
         if "bare" in s:
             srcs.append(objs[s["bare"]])
         elif "coll" in s:
-            srcs.append(magpy.Collection(*[objs[k] for k in s["coll"]]))
+            srcs.append(_nested([objs[k] for k in s["coll"]], s.get("nest", 0)))
         else:
             srcs.append({"sensor": magpy.Sensor(), "int": 5, "emptycoll": magpy.Collection()}[s["bad"]])
     ob = case["observers"]
@@ -276,7 +290,7 @@ def build_call(case):
             if "sens" in e:
                 observers.append(objs[e["sens"]])
             elif "coll" in e:
-                observers.append(magpy.Collection(*[objs[k] for k in e["coll"]]))
+                observers.append(_nested([objs[k] for k in e["coll"]], e.get("nest", 0)))
             elif "vec" in e:
                 observers.append(vec_of(e["vec"]))
             else:
@@ -420,7 +434,7 @@ def c_call(case):
             else:
                 ent.append("OBadEnt")
         o = "(OList %s)" % cl(ent)
-    agg = {None: "PNone", "mean": "PValid", "max": "PValid", "bogus": "PBadName", "reshape": "PCheckRaises",
+    agg = {None: "PNone", "mean": "PValid", "max": "PValid", "std": "PValid", "ptp": "PValid", "var": "PValid", "bogus": "PBadName", "reshape": "PCheckRaises",
            "argmax": "PAggRaises"}[case["pixel_agg"]]
     return "(mkCall %s %s %s %s %s %s %s)" % (
         d, "true" if case["kwargs"] else "false", cl(srcs), o, agg,
@@ -600,9 +614,28 @@ def rvec(rng, s=2.0):
     return [round(rng.uniform(-s, s), 3) for _ in range(3)]
 
 
+HALF_PI = round(float(np.pi / 2), 15)
+SPECIAL_RV = [[0, 0, 0], [HALF_PI, 0, 0], [0, 2 * HALF_PI, 0], [0, 0, -HALF_PI], [0, -HALF_PI, 0]]   # quarter turns, flips
+
+
 def g_pose(rng, n=None):
     n = n or rng.choice([1, 1, 2, 3, 5])
+    if rng.random() < 0.2:          # exact special orientations, axis-aligned integer positions
+        return [[rng.randint(-2, 2) for _ in range(3)] for _ in range(n)], [rng.choice(SPECIAL_RV) for _ in range(n)]
     return [rvec(rng, 3) for _ in range(n)], [rvec(rng, 1.5) for _ in range(n)]
+
+
+OFF = [2.0, 1.0, -1.0]           # bodies and meshes off their local origin
+GEO = {
+    "Cuboid": [(1, 0.5, 0.7), (3, 0.2, 0.4), (0.2, 3, 0.4), (0.2, 0.4, 3)],
+    "Cylinder": [(1, 0.8), (0.3, 3), (3, 0.2)],
+    "CylinderSegment": [(0.4, 1, 0.8, 10, 200), (0, 1, 0.8, -200, -30), (0.9, 1, 2, 0, 360), (0.2, 1, 0.5, -270, 80),
+                        (0.99, 1, 3, 0, 359)],
+    "Sphere": [0.9, 0.3, 2.5], "Circle": [1.1, 0.3, 2.5],
+}
+POLS = [(0.1, -0.2, 0.3), (0, 0, 1), (-1, 0, 0), (0, 1, 0), (0, 0, 0), (1e3, 2e3, -1e3), (1e-6, 0, 1e-6)]
+CURRENTS = [1.5, 0.0, -2.0, 1e6, 1e-6]
+MOMENTS = [(0.3, 0.1, -1), (0, 0, 1), (-1, 0, 0), (0, 0, 0), (1e6, 0, 0)]
 
 
 REAL = ["Cuboid", "Cylinder", "CylinderSegment", "Sphere", "Tetrahedron", "Triangle", "TriangularMesh", "Circle",
@@ -617,7 +650,7 @@ CUSTOM_MODES = ["ok", "raise", "none", "wrong", "nofunc", "onlyB", "raise2", "no
 def g_real(rng):
     cls = rng.choice(REAL)
     pos, rv = g_pose(rng)
-    d = {"cls": cls, "pos": pos, "rotvec": rv, "missing": rng.choices([None, "dim", "exc"], [88, 6, 6])[0]}
+    d = {"cls": cls, "pos": pos, "rotvec": rv, "missing": rng.choices([None, "dim", "exc"], [94, 3, 3])[0]}
     if rng.random() < 0.3:
         d["style"] = {"label": "obj%d" % rng.randrange(9), "color": rng.choice(["red", "blue"])}
     if cls == "Custom":
@@ -629,6 +662,9 @@ def g_real(rng):
         # built without checks / without reorientation, possibly with a mis-oriented face
         d["faces"] = rng.choice([FACES, FACES_BAD, FACES_BAD])
         d["checks"] = rng.choice(["skip", "skip", "ignore", "default"])
+    d["geo"] = rng.randrange(8)          # index into the class's geometry variants (modulo)
+    d["exc"] = rng.randrange(12) if rng.random() < 0.5 else 0
+    d["off"] = rng.random() < 0.3        # vertices off the local origin
     return d
 
 
@@ -652,41 +688,58 @@ def make_search_func(mode):
     return f
 
 
-def mk_real(d):
-    kw = {"position": d["pos"], "orientation": R.from_rotvec(np.array(d["rotvec"], dtype=float))}
+def _pick(lst, i):
+    return lst[i % len(lst)]
+
+
+def mk_real(d, scale=1.0):
+    """scale: absolute length scale of the whole scene (positions, sizes, vertices, pixels; angles untouched)"""
+    L = float(scale)
+    kw = {"position": (np.array(d["pos"], dtype=float) * L).tolist(),
+          "orientation": R.from_rotvec(np.array(d["rotvec"], dtype=float))}
     if d.get("style"):
         kw["style"] = dict(d["style"])
     dim, exc = d.get("missing") != "dim", d.get("missing") != "exc"
-    pol = (0.1, -0.2, 0.3) if exc else None
+    g, e = d.get("geo", 0), d.get("exc", 0)
+    pol = _pick(POLS, e) if exc else None
+    off = np.array(OFF) if d.get("off") else np.zeros(3)
     c = d["cls"]
+
+    def verts(v):
+        return ((np.array(v, dtype=float) + off) * L).tolist()
     if c == "Cuboid":
-        return magpy.magnet.Cuboid(dimension=(1, 0.5, 0.7) if dim else None, polarization=pol, **kw)
+        return magpy.magnet.Cuboid(dimension=tuple(x * L for x in _pick(GEO[c], g)) if dim else None, polarization=pol, **kw)
     if c == "Cylinder":
-        return magpy.magnet.Cylinder(dimension=(1, 0.8) if dim else None, polarization=pol, **kw)
+        return magpy.magnet.Cylinder(dimension=tuple(x * L for x in _pick(GEO[c], g)) if dim else None, polarization=pol, **kw)
     if c == "CylinderSegment":
-        return magpy.magnet.CylinderSegment(dimension=(0.4, 1, 0.8, 10, 200) if dim else None, polarization=pol, **kw)
+        r1, r2, h, p1, p2 = _pick(GEO[c], g)
+        return magpy.magnet.CylinderSegment(dimension=(r1 * L, r2 * L, h * L, p1, p2) if dim else None, polarization=pol, **kw)
     if c == "Sphere":
-        return magpy.magnet.Sphere(diameter=0.9 if dim else None, polarization=pol, **kw)
+        return magpy.magnet.Sphere(diameter=_pick(GEO[c], g) * L if dim else None, polarization=pol, **kw)
     if c == "Tetrahedron":
-        return magpy.magnet.Tetrahedron(vertices=d.get("verts", TETRA) if dim else None, polarization=pol, **kw)
+        return magpy.magnet.Tetrahedron(vertices=verts(d.get("verts", TETRA)) if dim else None, polarization=pol, **kw)
     if c == "Triangle":
-        return magpy.misc.Triangle(vertices=TETRA[:3] if dim else None, polarization=pol, **kw)
+        tri = TETRA[:3] if g % 2 == 0 else [TETRA[1], TETRA[0], TETRA[3]]
+        return magpy.misc.Triangle(vertices=verts(tri) if dim else None, polarization=pol, **kw)
     if c == "TriangularMesh":
         mode = d.get("checks", "default")
         extra = {} if mode == "default" else {"check_open": mode, "check_disconnected": mode,
                                               "check_selfintersecting": mode, "reorient_faces": mode}
-        return magpy.magnet.TriangularMesh(vertices=TETRA, faces=d.get("faces", FACES), polarization=pol, **extra, **kw)
+        return magpy.magnet.TriangularMesh(vertices=verts(TETRA), faces=d.get("faces", FACES), polarization=pol,
+                                           **extra, **kw)
     if c == "Circle":
-        return magpy.current.Circle(diameter=1.1 if dim else None, current=1.5 if exc else None, **kw)
+        return magpy.current.Circle(diameter=_pick(GEO[c], g) * L if dim else None,
+                                    current=_pick(CURRENTS, e) if exc else None, **kw)
     if c == "Polyline":
-        return magpy.current.Polyline(vertices=[[0, 0, 0], [1, 0, 0], [1, 1, 0.5]] if dim else None,
-                                      current=1.5 if exc else None, **kw)
+        pv = [[0, 0, 0], [1, 0, 0], [1, 1, 0.5]] if g % 2 == 0 else [[0, 0, -1], [0, 0, 1], [0, 0, 1], [2, 0, 1]]
+        return magpy.current.Polyline(vertices=verts(pv) if dim else None,
+                                      current=_pick(CURRENTS, e) if exc else None, **kw)
     if c == "Dipole":
-        return magpy.misc.Dipole(moment=(0.3, 0.1, -1) if exc else None, **kw)
+        return magpy.misc.Dipole(moment=_pick(MOMENTS, e) if exc else None, **kw)
     if c == "Custom":
         return magpy.misc.CustomSource(field_func=None if d["mode"] == "nofunc" else make_search_func(d["mode"]), **kw)
     if c == "Sensor":
-        px = None if d["pixel"] is None else np.array(d["pixel"], dtype=float)
+        px = None if d["pixel"] is None else np.array(d["pixel"], dtype=float) * L
         return magpy.Sensor(pixel=px, handedness=d.get("hand", "right"), **kw)
     raise ValueError(c)
 
@@ -713,7 +766,7 @@ def g_scene(rng):
                 o["pixel"] = rng.choice([None, [0.1, -0.2, 0.3], [[0.1, -0.2, 0.3]]])
         if "sens" in sc["observers"]:
             sc["observers"]["sens"] = sc["observers"]["sens"][:1]
-        else:
+        elif "arr" in sc["observers"]:
             sc["observers"]["arr"] = sc["observers"]["arr"][:1] if rng.random() < 0.5 else sc["observers"]["arr"][0]
             if sc["observers"]["as"] == "int-ndarray":
                 sc["observers"]["as"] = "ndarray"
@@ -723,39 +776,49 @@ def g_scene(rng):
 
 
 def _g_scene(rng):
-    nl, ns = rng.randint(1, 4), rng.randint(1, 3)
-    shape0 = rng.choice([None, [3], [2, 3], [2, 2, 3]])
+    nl, ns = rng.choice([1, 2, 2, 3, 3, 4, 4, 5, 6]), rng.randint(1, 3)
+    shape0 = rng.choice([None, [3], [2, 3], [2, 2, 3], [4, 4, 3]])
     mixed = rng.random() < 0.25
     objs = [g_real(rng) for _ in range(nl)] + \
         [g_sens_real(rng, rng.choice([None, [3], [2, 3], [2, 2, 3]]) if mixed else shape0) for _ in range(ns)]
+    if nl >= 2 and rng.random() < 0.3:      # twins: same geometry, different excitation; interleaved classes
+        objs[1] = dict(objs[0], exc=objs[0].get("exc", 0) + 1, pos=objs[1]["pos"], rotvec=objs[1]["rotvec"])
     leaves, sens = list(range(nl)), list(range(nl, nl + ns))
-    # one optional collection of some leaves (and maybe a sensor), possibly nested
+    # optional collections of some leaves, nested up to depth 3
     colls = []
     free = leaves[:]
-    if rng.random() < 0.5 and len(free) >= 1:
-        kids = rng.sample(free, rng.randint(1, len(free)))
-        for k in kids:
-            free.remove(k)
-        pos, rv = g_pose(rng, rng.choice([1, 2]))
-        colls.append({"kids": kids, "pos": pos, "rotvec": rv, "nest": rng.random() < 0.3})
-    entry = rng.choice(["top", "top", "top", "src", "sens", "coll"])
+    for _ in range(2):
+        if rng.random() < 0.45 and len(free) >= 1:
+            kids = rng.sample(free, rng.randint(1, len(free)))
+            for k in kids:
+                free.remove(k)
+            pos, rv = g_pose(rng, rng.choice([1, 2]))
+            colls.append({"kids": kids, "pos": pos, "rotvec": rv, "nest": rng.choice([0, 0, 1, 1, 2])})
+    entry = rng.choice(["top", "top", "top", "src", "sens", "coll", "collmix"])
     sources = [{"obj": k} for k in free if rng.random() < 0.8] + [{"coll": i} for i in range(len(colls))]
+    rng.shuffle(sources)
     if not sources:
         sources = [{"obj": leaves[0]}] if not colls else [{"coll": 0}]
     if rng.random() < 0.1:
         sources.append(dict(sources[0]))
     z = rng.random()
     if z < 0.2:
-        observers = {"arr": np.round(np.array([rng.uniform(-4, 4) for _ in range(6)]).reshape(2, 3), 3).tolist(),
+        nrow = rng.choice([2, 2, 3, 16, 21])
+        observers = {"arr": np.round(np.array([rng.uniform(-4, 4) for _ in range(3 * nrow)]).reshape(nrow, 3), 3).tolist(),
                      "as": rng.choice(["list", "ndarray", "int-ndarray", "tuple"])}
+    elif z < 0.28:      # an object's own public array handed back in as observers
+        k = rng.randrange(nl + ns)
+        observers = {"own": k, "attr": "position"}
     else:
         observers = {"sens": rng.sample(sens, rng.randint(1, len(sens)))}
     return {"objs": objs, "colls": colls, "sources": sources, "observers": observers, "entry": entry,
             "field": rng.choice("BBHHJM"), "sumup": rng.random() < 0.3, "squeeze": rng.random() < 0.6,
-            "pixel_agg": rng.choices([None, "mean", "min", "bogus", "argmax", 5, "ndim"], [60, 15, 5, 6, 8, 3, 3])[0],
+            "pixel_agg": rng.choices([None, "mean", "min", "std", "var", "ptp", "max", "median", "bogus", "argmax", 5, "ndim"],
+                                     [55, 8, 4, 4, 3, 3, 3, 2, 6, 7, 3, 2])[0],
             "output": rng.choices(["ndarray", "dataframe", "bogus"], [80, 10, 10])[0],
             "in_out": rng.choice(["auto", "auto", "inside", "outside", "bogus"]),
-            "kwargs": rng.random() < 0.03}
+            "kwargs": rng.random() < 0.03,
+            "scale": rng.choice([1, 1, 1, 1e-3, 1e-6, 1e3])}
 
 
 ATTRS = ["dimension", "diameter", "vertices", "faces", "polarization", "magnetization", "current", "moment",
@@ -845,12 +908,19 @@ def snap_diff(a, b, allobjs):
     return None
 
 
+def _innermost(col, depth):
+    for _ in range(int(depth)):
+        col = col.children[0]
+    return col
+
+
 def assemble(sc, objs):
-    """collections, source list and observers of a scene for a given list of leaf objects"""
+    """collections, source list, observers (and the all-in-one root collection for entry 'collmix')"""
+    L = float(sc.get("scale", 1))
     colls = []
     for c in sc["colls"]:
         col = magpy.Collection(*[objs[k] for k in c["kids"]])
-        if c["nest"]:
+        for _ in range(int(c["nest"])):
             col = magpy.Collection(col)
         colls.append(col)
     allobjs = objs[:]
@@ -861,30 +931,39 @@ def assemble(sc, objs):
     ob = sc["observers"]
     arrays = {}
     if "arr" in ob:
-        a = ob["arr"]
+        a = (np.array(ob["arr"], dtype=float) * L).tolist()
+
         def tup(x):
             return tuple(tup(y) for y in x) if isinstance(x, (list, tuple)) else x
         observers = {"list": a, "tuple": tup(a), "ndarray": np.array(a, dtype=float),
-                     "int-ndarray": np.rint(np.array(a)).astype(int) + 3}[ob["as"]]
+                     "int-ndarray": np.rint(np.array(ob["arr"])).astype(int) + 3}[ob["as"]]
         if isinstance(observers, np.ndarray):
             arrays["observers"] = observers
+    elif "own" in ob:
+        observers = getattr(objs[ob["own"]], ob["attr"])       # the object's own array, through its public getter
+        arrays["observers(own " + ob["attr"] + ")"] = observers
     else:
         observers = [objs[k] for k in ob["sens"]]
-    return colls, allobjs, srcs, observers, arrays
+    root = None
+    if sc["entry"] == "collmix" and "sens" in ob:
+        kids = list({id(x): x for x in srcs + observers}.values())
+        root = magpy.Collection(*kids)
+        allobjs.append(root)
+    return colls, allobjs, srcs, observers, arrays, root
 
 
 def build_scene(sc):
     S.idx = 0
-    objs = [mk_real(d) for d in sc["objs"]]
-    colls, allobjs, srcs, observers, arrays = assemble(sc, objs)
-    for c, col in zip(sc["colls"], colls):      # the collection's own pose (children keep theirs)
-        inner = col.children[0] if c["nest"] else col
-        inner._position = np.array(c["pos"], dtype=float)
+    objs = [mk_real(d, sc.get("scale", 1)) for d in sc["objs"]]
+    colls, allobjs, srcs, observers, arrays, root = assemble(sc, objs)
+    for c, col in zip(sc["colls"], colls):      # the innermost collection's own pose (children keep theirs)
+        inner = _innermost(col, c["nest"])
+        inner._position = np.array(c["pos"], dtype=float) * float(sc.get("scale", 1))
         inner._orientation = R.from_rotvec(np.array(c["rotvec"], dtype=float))
-    return objs, colls, allobjs, srcs, observers, arrays
+    return objs, colls, allobjs, srcs, observers, arrays, root
 
 
-def call_scene(sc, objs, srcs, observers):
+def call_scene(sc, objs, srcs, observers, root=None):
     kw = {"squeeze": sc["squeeze"], "pixel_agg": sc["pixel_agg"], "output": sc["output"]}
     name = "get" + sc["field"]
     entry = sc["entry"]
@@ -892,7 +971,9 @@ def call_scene(sc, objs, srcs, observers):
     S.armed = True
     try:
         try:
-            if entry == "src" and len(srcs) == 1:
+            if entry == "collmix" and root is not None:
+                val = getattr(root, name)(**kw)
+            elif entry == "src" and len(srcs) == 1:
                 obs = observers if isinstance(observers, list) and observers and \
                     isinstance(observers[0], magpy.Sensor) else [observers]
                 val = getattr(srcs[0], name)(*obs, **kw)
@@ -916,10 +997,10 @@ def call_scene(sc, objs, srcs, observers):
 
 def check_scene(sc):
     """-> list of (signature, text)"""
-    objs, colls, allobjs, srcs, observers, arrays = build_scene(sc)
+    objs, colls, allobjs, srcs, observers, arrays, root = build_scene(sc)
     before = deep_snapshot(allobjs)
     arr_before = {k: (v.copy(), v.dtype, v.shape) for k, v in arrays.items()}
-    v1, e1 = call_scene(sc, objs, srcs, observers)
+    v1, e1 = call_scene(sc, objs, srcs, observers, root)
     after = deep_snapshot(allobjs)
     out = []
     how = "raise" if e1 is not None else "return"
@@ -935,7 +1016,7 @@ def check_scene(sc):
             out.append((f"caller-array/{k}", f"array passed as {k} was modified"))
         if isinstance(v1, np.ndarray) and np.shares_memory(v1, a):
             out.append((f"caller-array-aliased/{k}", f"result shares memory with the {k} array"))
-    v2, e2 = call_scene(sc, objs, srcs, observers)
+    v2, e2 = call_scene(sc, objs, srcs, observers, root)
     if (e1 is None) != (e2 is None) or (e1 is not None and (type(e1) is not type(e2))):
         out.append(("identical-result/outcome", f"first call {CODE_NAME[exc_code(e1)]}, second {CODE_NAME[exc_code(e2)]}"))
     elif e1 is None and not _same_value(v1, v2):
@@ -1115,23 +1196,77 @@ def g_mutation(rng, sc):
     if cls == "Sensor":
         opts += [{"op": "set", "attr": "pixel", "value": [[0.1, 0, 0], [0, 0.2, 0], [0, 0, 0.3]]},
                  {"op": "set", "attr": "handedness", "value": rng.choice(["left", "right"])}]
+    opts += [{"op": "reset_path"}, {"op": "setori", "rv": [rng.choice(SPECIAL_RV) for _ in range(rng.choice([1, 3]))]},
+             {"op": "style"}, {"op": "read"}, {"op": "badcall"}, {"op": "reset2"}]
     m = dict(rng.choice(opts))
     m["obj"] = i
+    if sc["colls"] and rng.random() < 0.3:
+        # the same kind of change on a (nested) collection: pose changes go through to the children;
+        # tree edits change which sources take part
+        ci = rng.randrange(len(sc["colls"]))
+        level = rng.randint(0, int(sc["colls"][ci]["nest"]))         # 0 = outermost
+        free = [k for k, o in enumerate(sc["objs"]) if o["cls"] != "Sensor"
+                and not any(k in c["kids"] for c in sc["colls"])]
+        copts = [{"op": "move", "v": rvec(rng, 1)}, {"op": "rotate", "rv": rvec(rng, 1)},
+                 {"op": "setpos", "v": [rvec(rng, 2) for _ in range(rng.choice([1, 3]))]}, {"op": "reset_path"},
+                 {"op": "setori", "rv": [rng.choice(SPECIAL_RV)]},
+                 {"op": "coll_remove", "kid": rng.choice(sc["colls"][ci]["kids"])}]
+        if free:
+            copts.append({"op": "coll_add", "kid": rng.choice(free)})
+        m = dict(rng.choice(copts))
+        m["coll"], m["level"] = ci, level
     return m
 
 
-def apply_mutation(objs, m):
-    o = objs[m["obj"]]
+def _level(col, nest, level):
+    """collection `level` steps below the outermost wrapper (nest = number of wrappers)"""
+    for _ in range(min(int(level), int(nest))):
+        col = col.children[0]
+    return col
+
+
+def apply_mutation(sc, objs, colls, m):
+    if "coll" in m:
+        o = _level(colls[m["coll"]], sc["colls"][m["coll"]]["nest"], m["level"])
+        inner = _innermost(colls[m["coll"]], sc["colls"][m["coll"]]["nest"])
+        if m["op"] == "coll_remove":
+            inner.remove(objs[m["kid"]])
+            return
+        if m["op"] == "coll_add":
+            inner.add(objs[m["kid"]])
+            return
+    else:
+        o = objs[m["obj"]]
     if m["op"] == "move":
         o.move(m["v"])
     elif m["op"] == "rotate":
         o.rotate_from_rotvec(m["rv"], degrees=False)
     elif m["op"] == "setpos":
         o.position = m["v"]
+    elif m["op"] == "setori":
+        o.orientation = R.from_rotvec(np.array(m["rv"], dtype=float))
+    elif m["op"] == "reset_path":
+        o.reset_path()
+    elif m["op"] == "reset2":
+        o.reset_path()
+        o.reset_path()
     elif m["op"] == "reorient":
         o.reorient_faces(mode="ignore")
-    else:
+    elif m["op"] == "style":
+        o.style.label = "renamed"
+        o.style.update(color="green", opacity=0.5)
+    elif m["op"] == "read":              # reads interleaved with the calls
+        for a in ATTRS + ["position", "orientation", "parent", "style", "volume", "centroid", "dipole_moment",
+                          "children", "sources_all", "field_func"]:
+            try:
+                getattr(o, a)
+            except Exception:  # pylint: disable=broad-except
+                pass
+        repr(o)
+    elif m["op"] == "set":
         setattr(o, m["attr"], m["value"])
+    else:
+        raise ValueError(m["op"])
 
 
 def g_history(rng):
@@ -1146,7 +1281,7 @@ def g_history(rng):
     if rng.random() < 0.8:
         sc.update(pixel_agg=None if sc["pixel_agg"] not in (None, "mean", "min") else sc["pixel_agg"],
                   output="ndarray" if sc["output"] == "bogus" else sc["output"], kwargs=False)
-    sc["mutations"] = [g_mutation(rng, sc) for _ in range(rng.randint(1, 2))]
+    sc["mutations"] = [g_mutation(rng, sc) for _ in range(rng.choice([1, 1, 2, 3]))]
     return sc
 
 
@@ -1160,22 +1295,51 @@ def check_history(sc):
     """call, change objects through the public API, call again: the second result must be what brand
     new objects with the same public state give (a field call must not leave state that later calls use).
     The twins' quaternions went through the constructor once more, hence a tolerance relative to the field scale."""
-    objs, colls, allobjs, srcs, observers, _ = build_scene(sc)
-    call_scene(sc, objs, srcs, observers)
+    objs, colls, allobjs, srcs, observers, _, root = build_scene(sc)
+    call_scene(sc, objs, srcs, observers, root)
     for m in sc["mutations"]:
+        if m["op"] == "badcall":         # a rejected call in the middle
+            call_scene(dict(sc, output="bogus"), objs, srcs, observers, root)
+            call_scene(dict(sc, pixel_agg="bogus"), objs, srcs, observers, root)
+            continue
         try:
-            apply_mutation(objs, m)
+            apply_mutation(sc, objs, colls, m)
         except Exception:  # pylint: disable=broad-except
             return [], "mutation-rejected"
-    v2, e2 = call_scene(sc, objs, srcs, observers)
-    twins = [rebuild_obj(o) for o in objs]
-    _, _, tsrcs, tobs, _ = assemble(sc, twins)
-    vt, et = call_scene(sc, twins, tsrcs, tobs)
-    trig = "+".join(dict.fromkeys(type(objs[m["obj"]]).__name__ + ":" + (m.get("attr") or m["op"])
-                                  for m in sc["mutations"]))
+    if "own" in sc["observers"]:         # the object's array as it is now
+        observers = getattr(objs[sc["observers"]["own"]], sc["observers"]["attr"])
+    v2, e2 = call_scene(sc, objs, srcs, observers, root)
+    # brand-new twins with the same public state and the same tree as it is NOW
+    tw = {}
+
+    def twin(x):
+        if id(x) not in tw:
+            tw[id(x)] = magpy.Collection(*[twin(c) for c in x.children]) if isinstance(x, magpy.Collection) \
+                else rebuild_obj(x)
+        return tw[id(x)]
+    tsrcs = [twin(x) for x in srcs]
+    if isinstance(observers, list) and observers and isinstance(observers[0], magpy.Sensor):
+        tobs = [twin(x) for x in observers]
+    elif "own" in sc["observers"]:
+        tobs = getattr(twin(objs[sc["observers"]["own"]]), sc["observers"]["attr"])
+    else:
+        tobs = copy.deepcopy(observers)
+    troot = twin(root) if root is not None else None
+    vt, et = call_scene(sc, None, tsrcs, tobs, troot)
+    trig = "+".join(dict.fromkeys(("Collection" if "coll" in m else type(objs[m["obj"]]).__name__) + ":" +
+                                  (m.get("attr") or m["op"]) for m in sc["mutations"]))
     if (e2 is None) != (et is None) or (e2 is not None and type(e2) is not type(et)):
         return [(f"fresh-twin/outcome:{trig}", f"after call -> {trig} -> call: {CODE_NAME[exc_code(e2)]}, "
                  f"fresh objects with the same public state: {CODE_NAME[exc_code(et)]}")], CODE_NAME[exc_code(e2)]
+    # the twins went through the constructors, which re-normalise quaternions: values are compared only when
+    # every twin stores bit-identical paths (otherwise a 1-ulp input difference, amplified by cancellation or
+    # flipping an observer across a surface, is not a property of the field call)
+    same_inputs = all(
+        np.array(o._position).tobytes() == np.array(tw[id(o)]._position).tobytes() and
+        np.array(o._orientation.as_quat()).tobytes() == np.array(tw[id(o)]._orientation.as_quat()).tobytes()
+        for o in objs if id(o) in tw)
+    if e2 is None and not same_inputs:
+        return [], "returns(twin paths differ in bits: value not compared)"
     if e2 is None:
         a, b = _numeric(v2), _numeric(vt)
         fin = np.isfinite(a) & np.isfinite(b) if a.shape == b.shape else None
@@ -1291,6 +1455,46 @@ def check_dict_iface(ctx, n):
                 ctx.impl_fail(f"identical-result/functional:{name}", "second identical functional call differs", rp)
 
 
+def check_own_arrays(ctx):
+    """objects' OWN arrays (what the public getters return) passed back in as observers / functional-interface
+    parameters: unchanged bit for bit, result not aliased; left-handed Tetrahedron, single rows and batches"""
+    for nrow in (1, 2, 17):
+        tet = magpy.magnet.Tetrahedron(vertices=TETRA_NEG, polarization=(0.1, 0.2, 0.3),
+                                       position=[(0.1 * i, 0.2, 0.3) for i in range(nrow)])
+        sens = magpy.Sensor(pixel=[(0.5, 0.1 * i, 1.0) for i in range(nrow)] if nrow > 1 else (0.5, 0.1, 1.0))
+        tri = magpy.misc.Triangle(vertices=TETRA_NEG[:3], polarization=(0, 0, 1))
+        poly = magpy.current.Polyline(vertices=[(0, 0, 0), (1, 0, 0), (1, 1, 0)], current=1.0)
+        own = {"tet.vertices": tet.vertices, "tet.position": tet.position, "tet.polarization": tet.polarization,
+               "sens.pixel": sens.pixel, "tri.vertices": tri.vertices, "poly.vertices": poly.vertices}
+        keep = {k: (v.copy(), id(v)) for k, v in own.items()}
+        calls = []
+        for f in "BHJM":
+            fn = getattr(magpy, "get" + f)
+            calls += [lambda fn=fn: fn(tet, tet.position), lambda fn=fn: fn(tet, sens.pixel),
+                      lambda fn=fn: fn(tet, tet.vertices), lambda fn=fn: fn([tet, tri, poly], poly.vertices),
+                      lambda fn=fn: fn("Tetrahedron", sens.pixel, vertices=tet.vertices, polarization=tet.polarization,
+                                       position=tet.position),
+                      lambda fn=fn: fn("Triangle", tet.vertices, vertices=tri.vertices, polarization=tri.polarization),
+                      lambda fn=fn: fn("Polyline", poly.vertices[1:], segment_start=poly.vertices[:-1],
+                                       segment_end=poly.vertices[1:], current=1.0)]
+        for ci, call in enumerate(calls):
+            try:
+                val = call()
+            except Exception as e:  # pylint: disable=broad-except
+                val = None
+                ctx.bump("own-arrays:raises:" + type(e).__name__)
+            ctx.case(("own", nrow, ci), True)
+            now = {"tet.vertices": tet.vertices, "tet.position": tet.position, "tet.polarization": tet.polarization,
+                   "sens.pixel": sens.pixel, "tri.vertices": tri.vertices, "poly.vertices": poly.vertices}
+            for k, (a0, _) in keep.items():
+                if now[k].shape != a0.shape or now[k].tobytes() != a0.tobytes():
+                    ctx.impl_fail(f"caller-array/own:{k}", f"call #{ci} (rows {nrow}) modified the object's own {k}",
+                                  {"kind": "own", "nrow": nrow, "call": ci})
+                if isinstance(val, np.ndarray) and np.shares_memory(val, now[k]):
+                    ctx.impl_fail(f"caller-array-aliased/own:{k}", f"call #{ci} result aliases {k}",
+                                  {"kind": "own", "nrow": nrow, "call": ci})
+
+
 def check_object_arrays(ctx):
     """arrays handed to getB through objects' public attributes and observers: unchanged, not aliased"""
     verts = np.array(TETRA_NEG, dtype=float)
@@ -1374,6 +1578,7 @@ def run(ctx):
     run_guarded(ctx, lambda: search_histories(ctx, ctx.n(300, 4000) * (2 if big else 1)), "C08 history search")
     run_guarded(ctx, lambda: check_dict_iface(ctx, ctx.n(120, 1500)), "C08 functional interface arrays")
     run_guarded(ctx, lambda: check_object_arrays(ctx), "C08 object arrays")
+    run_guarded(ctx, lambda: check_own_arrays(ctx), "C08 own arrays")
 
 
 def run_corpus(ctx):
